@@ -1,8 +1,8 @@
 SPECIFICATION Spec
 CONSTANTS
-  Addrs = {"a", "b"}
+  Addrs = {"a", "b", "c"}
   Dev = {}
-  Cap = 50
+  Cap = 2
   MaxOps = 1000
 VIEW view
 ACTION_CONSTRAINT Emit
